@@ -525,6 +525,12 @@ func (em *EModel) onReturn(r *run, err error) {
 		if len(cs) > 0 && r.cancelled {
 			r.violate("C15.return-value", fmt.Sprintf("context cancelled at event %d with work left (%v satisfied), Execute returned nil", r.cancelSeq, cs))
 		} else if len(cs) > 0 {
+			for n, c := range em.engCand {
+				if c && em.execInCycle == 0 {
+					r.violate("C03.candidate-not-fired", fmt.Sprintf("cycle %d: rule %s (salience %d) was reported as candidate, the budget allowed a firing (%d of %d used), yet no rule fired and Execute returned nil", em.cycle, n, em.rules[n].Sal(), em.firings, r.sc.Knobs.MaxCycle))
+					break
+				}
+			}
 			r.violate("C02.not-quiescent", fmt.Sprintf("Execute returned nil after %d firing(s) (MaxCycle %d) although %v are satisfied on the final facts", em.firings, r.sc.Knobs.MaxCycle, cs))
 		}
 		if r.sc.Knobs.Listeners > 0 && em.cycle > 0 {
